@@ -21,6 +21,11 @@ def gen_script(rng):
     qs = []
     for k in g.keys:
         qs += ['R %s' % k, 'C %s' % k, 'RD %s' % k]
+    if rng.random() < 0.12:
+        # a history with one failed (or short) record append: the blob keeps a gap where the record should have been
+        pos = rng.randrange(2, len(L) + 1)
+        L[pos:pos] = ['fail append .blob 0 %s' % rng.choice(['ENOSPC', 'short:0', 'short:30', 'short:61']),
+                      'W %s 6 - %d 901' % (g.keys[0], rng.choice([5, 300])), 'clearfail', 'W %s 8 - 5 902' % g.keys[-1]]
     stale = rng.random() < 0.45
     if stale:
         # deletes whose markers go into already-indexed closed blobs, with the worker NOT given the chance to
@@ -102,6 +107,8 @@ def oracle(lines, io, spec=None):
                 tree_off = 83 + meta + 16
                 if tree_off <= n < len(b):
                     tag = '[F5] '
+    if any(l.startswith('fail append') for l in lines[:end]) and any(' Err Io' in o for o in io[:end]):
+        tag = '[F21] '
     if f2:
         tag = '[F2] '
     if io[open_i] != 'open ok':
